@@ -103,6 +103,7 @@ type c11Rec struct {
 	counts    map[string]int64
 	gen       int64 // bumped at every event (lets waiters see progress)
 	closing   bool  // the scenario is over: do not read results any more
+	endedA    int64 // == ended, readable without the lock
 }
 
 func newC11Rec() *c11Rec {
@@ -139,6 +140,7 @@ func (r *c11Rec) Gauge(name string, value float64, tags []string, rate float64) 
 		}
 		delete(r.open, gid)
 		r.ended++
+		atomic.AddInt64(&r.endedA, 1)
 		r.counts["ev.return"]++
 		r.cond.Broadcast()
 		return nil
